@@ -695,8 +695,12 @@ func (e *env) structured(r *rand.Rand, hostile bool) []opT {
 				next[v] = nn + 1
 			}
 			// bursts: the other validators follow with the same claim
-			if r.Intn(3) == 0 {
-				for _, w := range r.Perm(nVals)[:1+r.Intn(nVals)] {
+			if r.Intn(5) < 2 {
+				cnt := nVals
+				if r.Intn(2) == 0 {
+					cnt = 1 + r.Intn(nVals)
+				}
+				for _, w := range r.Perm(nVals)[:cnt] {
 					if next[w] == cl.Nonce {
 						c2 := *cl
 						ops = append(ops, opT{Kind: "vote", V: w, Claim: &c2})
